@@ -33,6 +33,8 @@ F_SPINE = "C14-extraction-non-left-spine"
 F_SIBLING = "C14-graph-same-type-subviews-share-id"
 F_HASH = "C14-graph-id-hash-collision"
 F_LEAFID = "C14-graph-operand-ids-local-to-subview"
+F_BCAST = "C14-unary-ufunc-drops-explicit-broadcast"
+ALL_FINDINGS = [F_DANGLING, F_SPINE, F_SIBLING, F_HASH, F_LEAFID, F_BCAST]
 
 
 class Skip(Exception):
@@ -575,7 +577,9 @@ def make_leaf(rnd, shape, dt, small=False):
     return {"shape": list(shape), "data": [rnd.randint(1, hi) for _ in range(n)]}
 
 
-LEAF_KINDS = ["raw", "fixed_ndarray", "cs_fb", "fs_fb", "fs_hb", "hs_hb", "ds_db", "dynamic_ndarray", "hybrid_ndarray", "std_array"]
+# (the legacy hybrid_ndarray class is not offered: its own shape() trips ASan for some capacities before any functor is involved)
+LEAF_KINDS = ["raw", "fixed_ndarray", "cs_fb", "fs_fb", "fs_hb", "hs_hb", "ds_db", "dynamic_ndarray", "std_array"]
+NOHEAP_KINDS = ["fixed_ndarray", "cs_fb", "fs_fb", "fs_hb", "hs_hb"]
 LEAF_KINDS_GRAPH = ["fixed_ndarray", "cs_fb", "fs_fb", "fs_hb", "ds_db", "dynamic_ndarray", "hs_hb"]
 
 
@@ -893,7 +897,7 @@ EXTRACT_HDR = {"reduce": ["nmtools/array/functional/ufunc/reduce.hpp"], "accumul
                "indexing": ["nmtools/array/functional/indexing.hpp"]}
 
 
-def extract_case(rnd, depth=None, spine_only=False, avoid_same_sig=False, dt=None, alias=None, pool=None, repeated=None, avoid_leafid=False):
+def extract_case(rnd, depth=None, spine_only=False, avoid_same_sig=False, dt=None, alias=None, pool=None, repeated=None, avoid_leafid=False, avoid_bcast=False):
     """stages in pipe format: value ids = leaves first, then stage results; the last stage is the view v"""
     pool = pool or EXTRACT_WEIGHTED
     for _ in range(300):
@@ -991,6 +995,8 @@ def extract_case(rnd, depth=None, spine_only=False, avoid_same_sig=False, dt=Non
         if case["alias"] and alias is None and any(len(s["in"]) == 1 and s["in"][0] < nl and FX[s["f"]].group in ("ufunc", "activation") for s in pst):
             case["alias"] = False     # get_function_composition refuses (at compile time) an explicit alias directly under a unary ufunc
         if avoid_leafid and leafid_class(case):
+            continue
+        if avoid_bcast and bcast_class(case):
             continue
         return case
     return None
@@ -1165,6 +1171,18 @@ def leafid_class(case):
     for s in case["stages"]:
         fx = FX[s["f"]]
         if fx.arity >= 2 and fx.group != "ufunc" and any(i >= nl for i in s["in"]):
+            return True
+    return False
+
+
+def bcast_class(case):
+    """a unary ufunc directly over the user's own broadcast_to view (extraction / graph treat it like the implicit broadcast of binary ufuncs)"""
+    if case.get("kind") != "extract":
+        return False
+    nl = len(case["arrays"])
+    for s in case["stages"]:
+        fx = FX[s["f"]]
+        if fx.arity == 1 and fx.group in ("ufunc", "activation") and s["in"][0] >= nl and case["stages"][s["in"][0] - nl]["f"] == "broadcast_to":
             return True
     return False
 
@@ -1467,8 +1485,10 @@ def classify(case, failure):
     k = case.get("kind")
     if k != "extract":
         return None
-    if "stack-use-after-scope" in f and dangling_class(case):
+    if ("stack-use-after-scope" in f or "heap-use-after-free" in f) and dangling_class(case):
         return F_DANGLING
+    if bcast_class(case) and ("extracted composition applied" in f or f.startswith("graph: operation nodes")):
+        return F_BCAST
     if "extracted composition applied" in f and not is_left_spine(case):
         return F_SPINE
     if "extracted operands" in f and not is_left_spine(case):
@@ -1601,6 +1621,7 @@ class C14(e2.ProgenProp):
         spine = self._is_known(F_SPINE)
         nosib = self._is_known(F_SIBLING)
         noleaf = self._is_known(F_LEAFID)
+        nobc = self._is_known(F_BCAST)
 
         def push(case, src):
             if case is None:
@@ -1615,9 +1636,15 @@ class C14(e2.ProgenProp):
                 if noleaf and leafid_class(case):
                     excluded[F_LEAFID] = excluded.get(F_LEAFID, 0) + 1
                     return
+                if nobc and bcast_class(case):
+                    excluded[F_BCAST] = excluded.get(F_BCAST, 0) + 1
+                    return
             cfg = "gcc"
             if case["kind"] == "extract" and dangling_class(case) and self._is_known(F_DANGLING):
+                # known dangling reference: keep judging values / operands / graph of this class, without the one ASan check that trips and with
+                # leaves whose views own no heap memory (the dead temporary is then only read, never freed)
                 cfg = "gcc_nouas"
+                case = dict(case, leaf_kinds=[k if k in NOHEAP_KINDS else NOHEAP_KINDS[(i + len(k)) % len(NOHEAP_KINDS)] for i, k in enumerate(case["leaf_kinds"])])
             items.append({"rid": "b%d" % len(items), "case": case, "cfg": cfg, "src": src})
 
         for n in FX:
@@ -1632,7 +1659,7 @@ class C14(e2.ProgenProp):
         for i in range(500 if th else 14):
             push(compose_case(rnd), "random")
         for i in range(500 if th else 14):
-            push(extract_case(rnd, spine_only=spine, avoid_same_sig=nosib, avoid_leafid=noleaf), "random")
+            push(extract_case(rnd, spine_only=spine, avoid_same_sig=nosib, avoid_leafid=noleaf, avoid_bcast=nobc), "random")
         return items, excluded
 
     # ---- engine ---------------------------------------------------------------------------------
